@@ -7,8 +7,10 @@
 (*    a placeholder, including occurrences that arrived inside content     *)
 (*    inserted by an earlier replacement.  The data is a sequence of atoms *)
 (*    (pieces of text inside JSON strings) among which the user's own text *)
-(*    may spell a placeholder or "</script>".  A browser / html.parser     *)
-(*    ends the data <script> element at the first "</script>".             *)
+(*    may spell a placeholder or "</script>" (the atom "endscript" stands  *)
+(*    for ANY spelling a browser accepts as the end tag: the tag name is   *)
+(*    matched case-insensitively, blanks may precede ">").  A browser /    *)
+(*    html.parser ends the data <script> element at the first such tag.    *)
 (*      Impl "intended": CSS, then JS, then DATA last; "</" written "<\/"  *)
 (*      Impl "pinned"  : CSS, DATA, JS; json.dumps as is                   *)
 (* 2. Merchant ids.  Each merchant gets an id used as a dictionary key;    *)
